@@ -46,7 +46,7 @@ pub(crate) fn exec(var: Variable) -> ExecResult {
 }
 
 pub(crate) fn return_type(lhs: Type) -> Type {
-    let element = lhs.iter_element().unwrap();
+    let element = lhs.iter_element().unwrap_or(Type::Never);
     var_type!([element])
 }
 
